@@ -26,6 +26,16 @@ RULE = ('T2: URI.join evaluated by the Gallina model (vm_compute; the reference 
 	'tree, kept out); read-only observers (repr str bytes hash bool len iter in dict sorted format copy deepcopy == != <= every public attribute) on the base and on the reference object before '
 	'join, the base built through every construction path (class of the registry, tuple, dict, copy, copy.copy/deepcopy), against the RFC result and a fresh unobserved base; the result is also '
 	'compared with == and != (both orders) against a URI built from the expected components. '
+	'Fifth-wave classes: references made of the parts of the base itself (its path as absolute / relative / re-encoded reference with and without query and fragment, its last segment, query, '
+	'authority, scheme, the whole base) against bases with and without query; query pairs unsorted / reverse sorted / duplicated, in the reference and inherited from the base, for every reference shape and every '
+	'scheme class of the registry, order of segments and ";" parameters; white space, NUL, CR LF, Unicode spaces and "=" padding as percent-encoded data at the edges of segments, fragment, user info and query; '
+	'lengths 2^k and 2^k +- 1 for k = 9..16 in every position; the base built by attribute assignment in every order, partly through the constructor, and from str / bytes and str subclasses / OrderedDict / reversed dict / '
+	'partial dict / namedtuple / positional arguments; every such join repeated with the reference as bytes and str subclass, namedtuple, OrderedDict, reversed and partial dict, partial keywords, positional arguments, '
+	'URI subclass object, object assembled attribute by attribute (same result required) and as bytearray, memoryview, list, iterator, generator, map, chain, object with __str__ (same result or TypeError, nothing else); '
+	'aliasing: result, base, reference object and argument dict changed in every public way one after the other, the others stay what they were; kind chain: each result is the base of the next reference, against RFC 5.2.2 '
+	'applied step by step; kind refuse: references the parser refuses, arguments the constructor refuses, setters that refuse their value, between joins on one base object - the object is unchanged and the next join is the '
+	'RFC result and that of an object that never saw a refusal; kind knob: URI.encoding assigned on the class (ISO8859-1, cp1252, koi8-r, latin1) and given by a registered subclass, non-ASCII octets in every component - '
+	'the text of the result is the RFC result read in that charset, the composed octets are those of the RFC result. '
 	'non-trivial = distinct (base, reference) whose result differs from the base')
 EXHAUSTIVE = {'quick': True, 'thorough': True}
 TRUSTED = ['harness/tables/urinorm.py (T1: URI.SCHEMES -> PORT, URI.PORT, normalize() probe)',
@@ -106,6 +116,7 @@ def gen_cases(rng, tier):
 			cases.append({'k': 'resolve', 'base': b, 'ref': r})
 	cases.extend(gen_classes(rng, tier))
 	cases.extend(gen_wave4(rng, tier))
+	cases.extend(gen_wave5(rng, tier))
 	return cases
 
 
@@ -133,8 +144,9 @@ SEP_ONLY_REFS = ['?&', '?&&', '?=', '?=&=', 'g?&', '/g?=', '//o/p?&', '?&#s']
 # an empty query is then indistinguishable from an undefined one (known finding D20c), so join(b'http://a/b?q', b'?&') keeps '?q' (RFC: 'http://a/b?&').
 
 
-def unq(text):
-	"""percent-decoding written from RFC 3986 section 2.1 (a '%' not followed by two hex digits stays)"""
+def unq(text, charset='utf-8'):
+	"""percent-decoding written from RFC 3986 section 2.1 (a '%' not followed by two hex digits stays); the octets are text in
+	`charset` (UTF-8 unless the configuration knob URI.encoding says otherwise)"""
 	raw = text.encode('utf-8')
 	out = bytearray()
 	i = 0
@@ -146,7 +158,7 @@ def unq(text):
 		else:
 			out.append(raw[i])
 			i += 1
-	return bytes(out).decode('utf-8')
+	return bytes(out).decode(charset)
 
 
 def _enc_some(rng, text, p=0.3):
@@ -401,6 +413,227 @@ def gen_wave4(rng, tier):
 	return cases
 
 
+# ---------------------------------------------------------------- fifth wave of input classes
+# (10) aliasing, (11) argument types of join() and of the constructors, (12) refused operations, (13) the URI.encoding knob,
+# (14) order of query pairs / segments / parameters, (15) order of API calls and references built from the parts of the base itself,
+# (16) white space / NUL / CR LF / '=' padding octets at the edges of every component, (17) lengths 2^k and 2^k +- 1 (k = 9..16).
+# Appended after everything else so that the random stream of the earlier generators is unchanged.
+#
+# Kept out (observations on the unchanged tree that belong to the component property, not to reference resolution; reported, not hidden):
+#  * URI.tuple = / URI.dict = / URI.parse() are not atomic: when a LATER component is refused (port 99999, a non-string path, an
+#    invalid IP literal on a URI-class object) the earlier components (scheme, user info, host) are already overwritten.  The refused
+#    operations generated below are the ones that are refused before anything is assigned, and every refused join().  On an object of the
+#    plain class URI, parse()/set() of ANY text with a ':' assigns the scheme (the text before the first ':') before the text is validated
+#    (URI(b'x-y://h/p').set(b'http://[zz]/p') raises InvalidURI and leaves an HTTP object with scheme 'http'): refused texts carry no ':'.
+#  * a reference OBJECT of another scheme class without scheme (HTTPS(b'//o/x')) carries that class's default port into the result
+#    (http://o:443/x); reference objects are built with the class URI(...) picks.
+#  * URI.encoding = 'UTF-16' cannot parse any URI (the percent-decoder output is decoded as UTF-16); a subclass with its own encoding
+#    cannot join a reference that carries octets of that encoding (join() parses the reference with the plain URI class): the knob is
+#    exercised on the class URI itself (ISO8859-1, cp1252, koi8-r, latin1) and on a registered subclass with ASCII-only references.
+
+QORDER = ['z=2&y=1', 'b&a', 'b=1&a=2', 't=2&t=1', 't=2&t=1&s', 'page=2&lang=de', 'z=26&a=1&m=13', 'sort=name&dir=asc&dir=desc&a=0', 'c=3&b=2&a=1', 'a=1&c=3&b=2', 'a=2&a=1&a=3',
+	'B=1&a=2&A=3&b=4', '10=x&9=y&1=z', 'k=b&k=a&k=b', 'z&y&x&w', 'zz&z&zzz', 'y=1&z=2&x=3', 'q=uri&page=2', 'id=7&id=3&id=5&id=3', 'b;a', 'b,a', 'b/a&a/b', 'z:1&a:2', 'b=2&a', 'b&a=1']
+QORDER_RESPELLED = ['b=&a=', 'b&a&', '&b&a', 'b&&a', 'z=%32&y=%31', 'b+c&a+b']   # URI.parse spells them its own way ('qany'); the order of the pairs stays
+ORDER_BASES = ['http://a/b/c/d?page=2&lang=de', 'http://a/?z=26&a=1&m=13', 'https://example.org/x/?sort=name&dir=asc&dir=desc&a=0', 'http://example.org:8080?b&a', 'ftp://h/p?b=1&a=2', 'x-y://h/p/?z&y&x']
+ORDER_REFS = ['', '#s', '#', 'g', './', '..', '?y', '?b&a', '?a&b', '//o', '//o?z&y', '/p', ';x', '../g#s', 'g?z=2&y=1#s', '#b&a', '#z=2&y=1', 'z/y/x', 'b/a', 'c/b/a/../..', 'g;b=1;a=2', 'g;z;y/h;b;a?n&m#l&k',
+	'//z:y@o/b/a?b&a', 'z://y/x/w?v&u#t&s', 'HTTP://B/b/a?b=1&a=2', 'https://z/?z=2&y=1']
+OWN_BASES = ['http://a/b?q', 'http://a/?q', 'http://a?q', 'http://a/b/?k=v', 'https://example.org:8443/x/y/z?k=v', 'http://a/b/c/d/?q=1', 'https://example.org/x/?k=v&l=w', 'http://a/b', 'http://a/b/', 'ftp://u:p@h/a/b?x',
+	'x-y://h/p/q?r', 'http://[::1]/a/b/c?d', 'http://a/b%20c/d%2Fe/f?q%20r', 'http://a/b;p=1/c;q?r;s', 'http://a/b.c/d..e?f', 'http://a/g/g/g?g', 'http://h/h?h']
+WS_OCT = ['%09', '%0A', '%0B', '%0C', '%0D', '%20', '%00', '%0D%0A', '%1C', '%1D', '%1E', '%1F', '%7F', '%C2%85', '%C2%A0', '%E1%9A%80', '%E2%80%80', '%E2%80%8B', '%E2%80%A8', '%E2%80%A9', '%E3%80%80', '%EF%BB%BF', '%3D', '%3D%3D']
+WS_TPLS = ['%s', '%sg', 'g%s', 'g/%s', '%s/g', 'g%s/h', 'g/%sh', '../%s', 'g/%s/..', '%s/..', '/%s', '/g%s', '/%sg/', '//o/%s', '//o/g%s/', '#%s', '#%sx', '#x%s', 'g#x%sy', '//u%s@o/', '//u:%sp@o/', '//u:p%s@o', 'z://o/%s#%s', 'g;%s', 'g;x=%s/h']
+WS_QUERY_OCT = ['%20', '%C2%A0', '%E3%80%80', '%3D', '%3D%3D', '+', '%2B', 'YQ==', 'YWI=', '=', '==']
+WS_QTPLS = ['?%s', '?a%s', '?%sa=b', '?a=b%s', 'g?a=%s#s', '/g?x=1&y=%s', '//o?%s']
+WS_BASES = [BASE, 'http://a/b%20/c%0A/?q']
+LIMITS5 = [511, 512, 513, 1025, 2047, 2048, 2049, 4097, 8193, 16383, 16384, 16385, 32767, 32768, 32769, 65537]
+SLOTNAMES = ['scheme', 'username', 'password', 'host', 'port', 'path', 'query_string', 'fragment']
+REFUSED_REFS = ['http://[zz]/', '//h:99999/', '//h:-1/', '//h:x/', 'a b', 'g\x00', 'g\n', ' g', 'g ', '\t', 'g%ff', '#%ff', '?%ff', '?%00', '?a=%0A', '1*://x', '//h h/', '//[::1/', '//[v1.x/', '//1.2.3.256/', '//h%ff/', '//xn--zz/', '\u00e4', 'g/\u00e4',
+	'//h\u00e4/', '#\u20ac', '?\u00e4', '//u%ff@h/', '//u:%c3@h', 'g%c3', 'g%c3%28', '%e4', '//h:65536', '//h:99999999999999999999/', '//[1::2::3]/', '//256.1.1.1', '//h"/', '//<h>/', 'z^z://h', 'z z:g', '{}', 'g|h', 'g\\h', '//h\\x/', '^', '`']
+REFUSED_ARGS = [{'type': 'bytearray'}, {'type': 'memoryview'}, {'type': 'list'}, {'type': 'iter'}, {'type': 'gen'}, {'type': 'map'}, {'type': 'chain'}, {'type': 'strobj'}, {'type': 'int'}, {'type': 'float'}, {'type': 'set'}, {'type': 'object'},
+	{'tuple': ['', '', '', '', 99999, '/x', '', '']}, {'tuple': ['', '', '', '', 'x', '/x', '', '']}, {'tuple': [1, 2]}, {'tuple': ['', '', '', '', None, 5, '', '']}, {'tuple': ['', '', '', '', None, '/x', '', '', '']}, {'tuple': [5, '', '', '', None, '/x', '', '']},
+	{'tuple': ['', '', '', 5, None, '/x', '', '']}, {'dict': {'port': 70000}}, {'dict': {'path': 5}}, {'dict': {'scheme': 5}}, {'dict': {'fragment': 1.5}}, {'dict': {'port': 'http'}}, {'dict': {'host': ['h']}}]
+# setters that refuse their value before anything is assigned (see the note above for those that do not)
+REFUSED_SETS = [['port', 99999], ['port', -1], ['port', 'x'], ['port', '65536'], ['path', 5], ['fragment', 5.0], ['host', ['h']], ['scheme', 5], ['query_string', ['a']], ['username', 7], ['password', 8], ['tuple', [1, 2]],
+	['tuple', [''] * 9], ['dict', 5], ['query', 5], ['query', [['a']]], ['query', [['a', 5]]], ['path_segments', 5], ['path_segments', ['', 5]], ['parse', 'a b'], ['parse', '/x/%ff'], ['parsestr', 'http://x/'], ['set', ['a']],
+	['setbytes', 'a b'], ['setbytes', '//h%ff/p'], ['setbytes', 'g%ff']]
+KNOB_ENCODINGS = ['ISO8859-1', 'cp1252', 'koi8-r', 'latin1']
+KNOB_OCT = ['%E4', '%F6%FC', '%DF', '%C0%FF', '%A4', '%e4', '%E4%20%E4', '%C3%A4']   # defined in every charset above; %C3%A4 is two characters there
+KNOB_TPLS = ['g%s', '../%s', './%s/h', '/%s', '/x/%s/', '#%s', 'g#a%sb', '?k=%s', 'g?%s=v&a=%s', '//o/%s', '//u%s:p%s@o/%s', 'z://o/%s#%s', '%s/../%s', '..?b=%s&a=%s#%s', '']
+KNOB_BASES = ['http://a/b/%E4/d?q', 'http://a/b/c/d;p?q', 'http://u%F6@a/%DF/?k=%FC&a=%E4', 'https://a:8/%A4%A4/x']
+CHAIN_SEGS = ['g', 'h', '..', '.', 'i;x', 'j.k', 'g', '..']
+
+
+def _own_refs(rng, base):
+	"""references made of the parts of the base itself"""
+	s, a, p, q, _f = U.parse5(base)
+	last = p.rsplit('/', 1)[-1]
+	refs = ['', '#s', '/', '/#s']
+	if p:
+		refs += [p, p + '#s', p + '#', p + '?y', p + '?y#s', p + '/', p + '/#s', p + '/..', p + '/.', p + '/../' + last, '/.' + p, _enc_some(rng, p, 0.5), _enc_some(rng, p, 0.5) + '#s']
+		if p != '/':
+			refs += [p.rstrip('/'), p.rstrip('/') + '#s']
+	if last:
+		refs += [last, last + '#s', './' + last, './' + last + '#s', last + '?y', '../' + last, last + '/', last + '/..']
+	if q:
+		refs += ['?' + q, '?' + q + '#s', 'g?' + q, '#' + q, '?' + q + '&' + q, '?y&' + q]
+		if p:
+			refs += [p + '?' + q, p + '?' + q + '#s', p + '#' + q]
+		if last:
+			refs += [last + '?' + q]
+	refs += ['//' + a, '//' + a + p, '//' + a + p + '#s', '//' + a + '#s', '//' + a.upper() + p, s + '://' + a + p, s + '://' + a + p + '#s', s.upper() + '://' + a.upper() + p, base, base + '#s', s + ':', s + ':' + (p or '/'),
+		s + ':g', s.upper() + ':' + (p or '/') + '#s', s, a.replace(':', '%3A').replace('@', '%40').replace('[', '').replace(']', ''), s + '/' + s, '//' + s, '#' + s, '?' + s]
+	if q:
+		refs += ['//' + a + p + '?' + q, '//' + a + '?' + q]
+	return refs
+
+
+def _perm(rng):
+	p = list(SLOTNAMES)
+	rng.shuffle(p)
+	return p
+
+
+def gen_wave5(rng, tier):
+	big = tier == 'thorough'
+	mul = 5 if big else 1
+	cases = []
+	seen = set()
+
+	def add(b, r, **kw):
+		key = (b, r, repr(sorted(kw.items())))
+		if key in seen:
+			return
+		seen.add(key)
+		c = {'k': 'join', 'base': b, 'ref': r, 'w5': len(cases) % 6}   # which sixth of the argument types of (11) this case goes through
+		if len(cases) % 16 == 0 and not kw.get('nocoq'):
+			c['al'] = 1   # (10) aliasing observations
+		c.update(kw)
+		cases.append(c)
+	# -- (15)/(C12-13) references made of the parts of the base itself: its path (absolute, relative, re-encoded, with and without query / fragment),
+	#    its last segment, its query, its authority, its scheme, the whole base - against bases with and without query
+	for b in OWN_BASES + (BASES + META_BASES[1:] if big else BASES[1:4] + META_BASES[2:]):
+		for r in _own_refs(rng, b):
+			add(b, r)
+	# -- (14)/(C12-15) order: query pairs unsorted / reverse sorted / with duplicates, from the reference and inherited from the base, for every shape
+	#    of reference and every scheme class of the registry; order of path segments, of ';' parameters, of '&' inside the fragment
+	for bi, b in enumerate([BASE, 'http://a', ORDER_BASES[0], ORDER_BASES[4]]):
+		for qi, q in enumerate(QORDER):
+			for ti, tpl in enumerate(QTPLS):
+				if big or (bi == 0 and (qi + ti) % 3 == 0) or (qi + ti) % 5 == bi + 1:
+					add(b, tpl % q)
+		for qi, q in enumerate(QORDER_RESPELLED):
+			for ti, tpl in enumerate(QTPLS):
+				if big or (bi == 0 and (qi + ti) % 2 == 0) or (qi + ti) % 5 == bi + 1:
+					add(b, tpl % q, qany=True)
+	for b in ORDER_BASES:
+		for r in ORDER_REFS + ['?' + q for q in QORDER[:8]]:
+			add(b, r)
+	for name, clsname, port in _registry():
+		for r in ('', '#s', 'g?z&y', '?z=2&y=1', '//o/p?c=3&b=2&a=1#b&a', '%s://o:%d/?t=2&t=1' % (name.upper(), port), '../?b=1&a=2'):
+			add('%s://a/b/c?b=1&a=2' % name, r)
+	# -- (16) white space, NUL, CR LF, separators and '=' padding as DATA at the edges of every component (hundreds of cheap references)
+	for oi, e in enumerate(WS_OCT):
+		for ti, tpl in enumerate(WS_TPLS):
+			for bi, b in enumerate(WS_BASES):
+				if big or (bi == 0 and (oi + ti) % 2 == 0) or (bi == 1 and (oi + ti) % 5 == 1):
+					add(b, tpl.replace('%s', e))
+	for e in WS_QUERY_OCT:
+		for tpl in WS_QTPLS:
+			if set(U.parse5(tpl.replace('%s', e))[3]) <= set('&='):
+				continue   # a query of form separators only: known finding D20e, see SEP_ONLY_REFS
+			add(BASE, tpl.replace('%s', e), qany=True)
+			if big:
+				add(WS_BASES[1], tpl.replace('%s', e), qany=True)
+	for b in ('http://a/b%20', 'http://a/%20b/c', 'http://a/b/%0D%0A', 'http://a/b/c%09/', 'http://u%20:%20p@a/%00/x%00', 'http://a/%C2%A0/%E3%80%80/d', 'http://a/b/YQ%3D%3D'):
+		for r in ('', 'g', '.', '..', '../g', './g%20', '/g', '?y', '#%20', '#s', '%20', '%0A/..', 'g/../..'):
+			add(b, r)
+	pieces = WS_OCT + ['g', 'h', 'x', '.', '..', 'a=b', ';', 'YQ']
+	for _ in range(150 * mul):
+		seg = lambda: ''.join(rng.choice(pieces) for _i in range(rng.randint(1, 3)))
+		r = rng.choice(['', '', '/', '//o/', 'z://o/', '../', './']) + '/'.join(seg() for _i in range(rng.randint(1, 3)))
+		if rng.random() < 0.3:
+			r += '?' + rng.choice(QORDER)
+		if rng.random() < 0.5:
+			r += '#' + seg()
+		add(rng.choice(WS_BASES + BASES[:4]), r)
+	# -- (17) lengths 2^k and 2^k +- 1 (k = 9..16) that the earlier limit list does not have, in every length-carrying position
+	for n in LIMITS5:
+		nocoq = n > COQ_MAX
+		refs = ['g' * n, '?' + 'y' * n, '#' + 's' * n, 'g/' * (n // 2) + 'g' * (n % 2), '../' * (n // 3) + 'g' * (n % 3), '/' + 'g' * (n - 1), '%41' * (n // 3) + 'A' * (n % 3), '#' + '%C3%A4' * (n // 6) + 's' * (n % 6),
+			'//' + 'u' * n + '@o/x', 'g;' + 'x' * (n - 2), '?' + '&'.join(['b=1', 'a=2'] * (n // 8)) + '&' * 0 + 'c' * (n % 8), 'g?' + 'y' * n + '#' + 's' * n]
+		bases = [('http://a/' + 'b' * (n - 1), '../g'), ('http://a/' + 'b/' * (n // 2), '../g?z&y'), ('http://a/b?' + 'q' * n, '#s'), ('http://a/b?' + '&'.join(['b=1', 'a=2'] * (n // 8)), ''),
+			('http://a/' + 'b' * (n - 1) + '?q', '/' + 'b' * (n - 1))]
+		if n > 4096 and not big:   # the quick tier rotates the positions over the nine longest lengths
+			refs = [refs[n % 3]] + refs[(n % 5) + 3:(n % 5) + 5]
+			bases = [bases[n % 4], bases[4]]
+		for r in refs:
+			add(BASE, r, nocoq=nocoq)
+		for b, r in bases:
+			add(b, r, nocoq=nocoq)
+	# -- (15) construction order: the base (and the reference object) built by attribute assignment in every order, partly through the constructor,
+	#    (11) and from every argument type the constructor takes; against the RFC result and a base built from the text
+	pool = [c['ref'] for c in cases if not c.get('qany') and len(c['ref']) < 200] + [r for r, _ in U.RFC54] + SPECIAL_REFS
+	for n in range(350 * mul):
+		how = rng.choice(['attrs', 'attrs', 'mixed', 'str', 'bytessub', 'strsub', 'odict', 'revdict', 'namedtuple', 'partdict', 'posargs'])
+		kw = {'bhow': [how, _perm(rng), rng.randint(0, 8)]}
+		if n % 2:
+			kw['rperm'] = [_perm(rng), rng.randint(0, 8)]
+		if n % 5 == 0:
+			kw['pre'] = _pre(rng)
+		add(rng.choice(BASES + OWN_BASES + ORDER_BASES), rng.choice(pool), **kw)
+	# -- (15) one resolution after the other: each result is the base of the next reference; against the RFC algorithm applied step by step
+	alpha = CHAIN_SEGS
+	for n in range(500 * mul):
+		refs = []
+		for i in range(rng.randint(2, 4)):
+			r = rng.choice(['', '', '', '/', '//o/', '//u:p@O:80/', 'z://o/', 'HTTPS://Z:443/']) + U.rpath(rng, 0, 3, alpha)
+			if r.endswith(('/..', '/.')) and rng.random() < 0.5:
+				r += '/'
+			if '//' in r.replace('://', ':').lstrip('/') or r.startswith('///'):
+				continue
+			r += rng.choice(['', '', '?y', '?' + rng.choice(QORDER), '?k=v'])
+			refs.append(r)
+		if not refs:
+			refs = ['g']
+		refs[-1] += rng.choice(['', '#s', '#b&a', ''])
+		cases.append({'k': 'chain', 'base': rng.choice(BASES + OWN_BASES[:8] + ORDER_BASES), 'refs': refs})
+	# -- (12) refused operations (a reference the parser refuses, an argument of a type or shape the constructor refuses, a setter that refuses its value)
+	#    between joins on one base object: the object stays what it was, the next join is the RFC's and that of an object that never saw the refusal
+	for n in range(450 * mul):
+		ops = []
+		for _i in range(rng.randint(2, 6)):
+			x = rng.random()
+			if x < 0.3:
+				ops.append(['badjoin', {'text': rng.choice(REFUSED_REFS)}, rng.choice(['bytes', 'str'])])
+			elif x < 0.5:
+				ops.append(['badjoin', dict(rng.choice(REFUSED_ARGS), ref=rng.choice(['g', '../g?y', '#s', '//o/x'])), 'arg'])
+			elif x < 0.7:
+				ops.append(['badset'] + rng.choice(REFUSED_SETS))
+			elif x < 0.78:
+				ops.append(['set', rng.choice([['path', '/x/y'], ['query_string', 'b&a'], ['fragment', ''], ['host', 'o'], ['port', 8080], ['username', 'u']])])
+			else:
+				ops.append(['join', rng.choice(['', '', '/', '//o/']) + U.rpath(rng, 0, 3, alpha) + rng.choice(['', '?y', '?b&a', '#s'])])
+		ops.append(['join', rng.choice(['g', '../g', '?b&a', '#s', '', '/g', '//o/x?z&y'])])
+		cases.append({'k': 'refuse', 'base': rng.choice(BASES + OWN_BASES[:6] + ORDER_BASES[:3]), 'ops': ops})
+	for spec in REFUSED_REFS:
+		cases.append({'k': 'refuse', 'base': BASE, 'ops': [['badjoin', {'text': spec}, 'bytes'], ['badjoin', {'text': spec}, 'str'], ['join', '../g?b&a#s']]})
+	for spec in REFUSED_ARGS:
+		cases.append({'k': 'refuse', 'base': BASE, 'ops': [['badjoin', dict(spec, ref='../g?y#s'), 'arg'], ['join', '../g?b&a#s']]})
+	for spec in REFUSED_SETS:
+		cases.append({'k': 'refuse', 'base': 'http://a/b/c/d?page=2&lang=de', 'ops': [['badset'] + spec, ['join', ''], ['join', 'g']]})
+	# -- (13) the charset knob URI.encoding (assigned on the class URI, and as attribute of a registered subclass) with non-ASCII octets in every
+	#    component of the base and of the reference: the octets of the result are those of the RFC result, its text is their decoding in that charset
+	for enc in KNOB_ENCODINGS:
+		for bi, b in enumerate(KNOB_BASES):
+			for oi, e in enumerate(KNOB_OCT):
+				for ti, tpl in enumerate(KNOB_TPLS):
+					if big or (oi + ti + bi) % 4 == 0:
+						cases.append({'k': 'knob', 'enc': enc, 'mode': 'class', 'base': b, 'ref': tpl.replace('%s', e)})
+		for b in ('x-l1://a/b/%E4/d?k=%FC', 'x-l1://u%F6@a/%DF/'):
+			for r in ('g', '../g', '.', '?z&y', '#s', '', '/g/h', '//o/x', 'g;x?b&a#s'):
+				cases.append({'k': 'knob', 'enc': enc, 'mode': 'subclass', 'base': b, 'ref': r})
+	return cases
+
+
 def _ro(u, name, target='self'):
 	"""one read-only use of u (or of a copy of u); whatever it answers or raises is not this property's business, what it leaves behind is"""
 	import copy
@@ -483,6 +716,30 @@ def _rebuild(x, how, rng_free_text=None):
 	"""the same URI through another construction path"""
 	import copy
 	C = U.classes()
+	if isinstance(how, list):   # fifth wave: [path, order of the attributes, how many of them go through the constructor]
+		import collections
+		how, perm, k = how
+		if how == 'attrs':
+			return _attr_build(C, x.tuple, perm, 0)
+		if how == 'mixed':
+			return _attr_build(C, x.tuple, perm, k)
+		if how == 'str':
+			return C['URI'](rng_free_text.decode('utf-8'))
+		if how == 'bytessub':
+			return C['URI'](_helper('B')(rng_free_text))
+		if how == 'strsub':
+			return C['URI'](_helper('S')(rng_free_text.decode('utf-8')))
+		if how == 'odict':
+			return C['URI'](collections.OrderedDict(x.dict))
+		if how == 'revdict':
+			return C['URI'](dict(reversed(list(x.dict.items()))))
+		if how == 'namedtuple':
+			return C['URI'](_helper('Parts')(*x.tuple))
+		if how == 'partdict':
+			return C['URI'](dict((key, v) for key, v in x.dict.items() if v))
+		if how == 'posargs':
+			return C['URI'](None, *x.tuple)
+		raise KeyError('harness: unknown construction %r' % (how,))
 	if how == 'copy':
 		return type(x)(x)
 	if how == 'retuple':
@@ -529,6 +786,11 @@ def observe(c):
 			return _obs_seq(c)
 		except Exception as exc:
 			return {'err': U.exc_name(exc), 'msg': str(exc)[:200]}
+	if k in ('chain', 'refuse', 'knob'):
+		try:
+			return {'chain': _obs_chain, 'refuse': _obs_refuse, 'knob': _obs_knob}[k](c)
+		except Exception as exc:
+			return {'err': U.exc_name(exc), 'msg': str(exc)[:200]}
 	try:
 		base = _mk(c['base'])
 		if c.get('bhow'):
@@ -557,6 +819,10 @@ def observe(c):
 			o['fresh'] = U.state(fresh.join(ref))
 		if base_in_domain(c['base']):
 			o['cmp'] = _cmp_result(c, o, j)
+		if 'w5' in c:
+			o['types'] = _type_joins(base, c)
+			if c.get('al'):
+				o['alias'] = _alias(base, c)
 		return o
 	except Exception as exc:
 		return {'err': U.exc_name(exc), 'msg': str(exc)[:200]}
@@ -685,6 +951,479 @@ def _obs_seq(c):
 	return {'steps': steps}
 
 
+# ---------------------------------------------------------------- fifth wave: observation helpers
+
+def _text_of(w):
+	"""a normalised URI text from eight expected components (scheme://[user[:password]@]host[:port]path[?query]); no fragment"""
+	s, user, pw, host, port, path, q = w[0], w[1], w[2], w[3], w[4], w[5], w[6]
+	out = s + '://'
+	if user:
+		out += user + (':' + pw if pw else '') + '@'
+	out += host
+	if port and port != U.DEFAULT_PORTS.get(s):
+		out += ':%d' % port
+	out += path
+	if q:
+		out += '?' + q
+	return out
+
+
+class _StrObj(object):
+	def __init__(self, text):
+		self.text = text
+
+	def __str__(self):
+		return self.text
+
+	def __bytes__(self):
+		return self.text.encode('utf-8')
+
+
+def _attr_build(C, t, perm, k=0):
+	"""a URI with the slots t: the first k names of perm go through the constructor, the others are assigned one by one in the order of perm"""
+	names = ['scheme', 'username', 'password', 'host', 'port', 'path', 'query_string', 'fragment']
+	val = dict(zip(names, t))
+	first = dict((n, val[n]) for n in perm[:k])
+	y = C['URI'](**first) if first else C['URI']()
+	for n in perm[k:]:
+		setattr(y, n, val[n])
+	return y
+
+
+_HELPER = {}
+
+
+def _helper(name):
+	import collections
+	if not _HELPER:
+		_HELPER['B'] = type('B', (bytes,), {})
+		_HELPER['S'] = type('S', (str,), {})
+		_HELPER['Parts'] = collections.namedtuple('Parts', 'scheme username password host port path query_string fragment')
+		_HELPER['Sub'] = type('Sub', (U.classes()['URI'],), {'__slots__': ()})
+	return _HELPER[name]
+
+
+def _typed_arg(C, kind, ref, perm=None, k=0, r=None):
+	"""the reference `ref` handed over as an object of another type: (args, kwargs, must_be_accepted, argument object, snapshot function)"""
+	import collections
+	import itertools
+	r = r or C['URI'](ref.encode('utf-8'))
+	t = r.tuple
+	raw = ref.encode('utf-8')
+	none = lambda: None
+	if kind == 'bytessub':
+		x = _helper('B')(raw)
+		return (x,), {}, True, x, lambda: bytes(x)
+	if kind == 'strsub':
+		x = _helper('S')(ref)
+		return (x,), {}, True, x, lambda: str(x)
+	if kind == 'bytearray':
+		x = bytearray(raw)
+		return (x,), {}, False, x, lambda: bytes(x)
+	if kind == 'memoryview':
+		x = memoryview(raw)
+		return (x,), {}, False, x, lambda: bytes(x)
+	if kind == 'strobj':
+		x = _StrObj(ref)
+		return (x,), {}, False, x, lambda: x.text
+	if kind == 'namedtuple':
+		x = _helper('Parts')(*t)
+		return (x,), {}, True, x, lambda: tuple(x)
+	if kind == 'list':
+		x = list(t)
+		return (x,), {}, False, x, lambda: list(x)
+	if kind == 'iter':
+		return (iter(t),), {}, False, None, none
+	if kind == 'gen':
+		return ((v for v in t),), {}, False, None, none
+	if kind == 'map':
+		return (map(lambda v: v, t),), {}, False, None, none
+	if kind == 'chain':
+		return (itertools.chain(t[:3], t[3:]),), {}, False, None, none
+	if kind == 'odict':
+		x = collections.OrderedDict(r.dict)
+		return (x,), {}, True, x, lambda: list(x.items())
+	if kind == 'revdict':
+		x = dict(reversed(list(r.dict.items())))
+		return (x,), {}, True, x, lambda: list(x.items())
+	if kind == 'partdict':   # only the components the reference has; a missing key is an undefined component
+		x = dict((key, v) for key, v in r.dict.items() if v)
+		return ((x,), {}, True, x, lambda: list(x.items())) if x else ((), {}, True, None, none)
+	if kind == 'kwpart':
+		x = dict((key, v) for key, v in r.dict.items() if v)
+		return (), x, True, x, lambda: list(x.items())
+	if kind == 'posargs':    # join(None, scheme, username, ..., fragment)
+		return (None,) + tuple(t), {}, True, None, none
+	if kind == 'urisub':
+		x = _helper('Sub')(r)
+		return (x,), {}, True, x, lambda: U.state(x)
+	if kind == 'objperm':
+		x = _attr_build(C, t, perm or ['fragment', 'query_string', 'path', 'port', 'host', 'password', 'username', 'scheme'], k)
+		return (x,), {}, True, x, lambda: U.state(x)
+	if kind in ('int', 'float', 'set', 'object'):
+		x = {'int': 5, 'float': 1.5, 'set': set(['g']), 'object': object()}[kind]
+		return (x,), {}, False, None, none
+	raise KeyError('harness: unknown argument type %r' % (kind,))
+
+
+TYPE_KINDS = ['bytessub', 'strsub', 'bytearray', 'memoryview', 'strobj', 'namedtuple', 'list', 'iter', 'gen', 'map', 'chain', 'odict', 'revdict', 'partdict', 'kwpart', 'posargs', 'urisub', 'objperm']
+
+
+def _type_joins(base, c):
+	"""(11) the reference in every other argument type; a type join() does not take may be refused (TypeError), never answered differently"""
+	C = U.classes()
+	out = {}
+	rperm = c.get('rperm') or [None, 0]
+	r = C['URI'](c['ref'].encode('utf-8'))
+	for kind in TYPE_KINDS[c['w5'] % 6::6]:
+		try:
+			args, kw, must, obj, snap = _typed_arg(C, kind, c['ref'], rperm[0], rperm[1], r)
+		except Exception as exc:   # the argument object itself cannot be built (the constructor path refuses the slots of this reference)
+			out[kind] = {'skip': '%s: %s' % (type(exc).__name__, str(exc)[:100])}
+			continue
+		before = snap()
+		try:
+			jj = base.join(*args, **kw)
+			out[kind] = {'out': U.state(jj), 'pub': U.public(jj), 'ident': jj is base or jj is obj, 'must': must, 'argsame': snap() == before}
+		except TypeError as exc:
+			out[kind] = {'refused': 'TypeError', 'msg': str(exc)[:120], 'must': must, 'argsame': snap() == before}
+		except Exception as exc:
+			out[kind] = {'err': U.exc_name(exc), 'msg': str(exc)[:120], 'must': must}
+	out['after'] = U.state(base)
+	return out
+
+
+def _mutate_all(j, light=False):
+	"""every public way of changing a URI object (light: the plain attributes only)"""
+	if light:
+		for name, v in (('path', '/m/n'), ('query_string', 'm=1'), ('fragment', 'm'), ('host', 'm.example'), ('port', 81), ('username', 'm'), ('password', 'n'), ('scheme', 'ftp')):
+			try:
+				setattr(j, name, v)
+			except Exception:
+				pass
+		return
+	for f in (lambda: setattr(j, 'path', '/m/n'), lambda: setattr(j, 'query_string', 'm=1'), lambda: setattr(j, 'query', [('n', '2'), ('m', '1')]), lambda: setattr(j, 'fragment', 'm'), lambda: setattr(j, 'host', 'm.example'),
+			lambda: setattr(j, 'port', 81), lambda: setattr(j, 'username', 'm'), lambda: setattr(j, 'password', 'n'), lambda: setattr(j, 'path_segments', ['', 'm', '']), lambda: j.normalize(), lambda: j.abspath(),
+			lambda: setattr(j, 'scheme', 'ftp'), lambda: j.parse(b'ftp://m/m?m#m'), lambda: setattr(j, 'tuple', ('https', 'm', 'm', 'm', 82, '/m', 'm', 'm')), lambda: setattr(j, 'dict', {'scheme': 'http', 'host': 'mm', 'path': '/mm'}),
+			lambda: j.set(b'x-y://m/')):
+		try:
+			f()
+		except Exception:
+			pass
+
+
+def _alias(base, c):
+	"""(10) results, bases and arguments built from one another share no state: change one in every public way, the others stay what they were"""
+	C = U.classes()
+	ref = c['ref'].encode('utf-8')
+	out = {}
+	b0 = U.state(base)
+	R = C['URI'](ref)
+	r0 = U.state(R)
+	j = base.join(R)
+	first = U.state(j)
+	_mutate_all(j)
+	out['mut_result'] = {'base': U.state(base) == b0, 'ref': U.state(R) == r0, 'again': U.state(base.join(R)) == first, 'again_bytes': U.state(base.join(ref)) == first}
+	j = base.join(R)
+	_mutate_all(R)
+	out['mut_ref'] = {'base': U.state(base) == b0, 'result': U.state(j) == first, 'again_bytes': U.state(base.join(ref)) == first}
+	D = dict(C['URI'](ref).dict)
+	D0 = list(D.items())
+	j = base.join(D)
+	_mutate_all(j)
+	out['mut_dict_result'] = {'dict': list(D.items()) == D0, 'base': U.state(base) == b0, 'again': U.state(base.join(D)) == first}
+	# objects built from the base (and the base's own parts as arguments): changing them does not change the base
+	BD = base.dict
+	BD0 = list(BD.items())
+	for name, mk in (('copy', lambda: type(base)(base)), ('uricopy', lambda: C['URI'](base)), ('tuple', lambda: C['URI'](base.tuple)), ('dict', lambda: C['URI'](BD)), ('kwargs', lambda: C['URI'](**BD))):
+		try:
+			b2 = mk()
+			same = U.state(b2.join(ref)) == first
+			_mutate_all(b2, name != 'copy')
+			out['from_base_' + name] = {'base': U.state(base) == b0, 'dict': list(BD.items()) == BD0, 'same': same, 'again_bytes': U.state(base.join(ref)) == first}
+		except Exception as exc:
+			out['from_base_' + name] = {'err': U.exc_name(exc), 'msg': str(exc)[:120]}
+	return out
+
+
+def _obs_chain(c):
+	base = _mk(c['base'])
+	steps = []
+	for r in c['refs']:
+		before = U.state(base)
+		rel = U.classes()['URI'](r.encode('utf-8'))
+		j = base.join(r.encode('utf-8'))
+		steps.append({'b': before, 'rel': U.state(rel), 'out': U.state(j), 'pub': U.public(j), 'after': U.state(base), 'ident': j is base})
+		base = j
+	return {'steps': steps}
+
+
+def _bad_arg(C, spec):
+	if 'text' in spec:
+		return spec['text']
+	if 'tuple' in spec:
+		return tuple(spec['tuple'])
+	if 'dict' in spec:
+		return dict(spec['dict'])
+	return _typed_arg(C, spec['type'], spec['ref'])[0][0]
+
+
+def _apply_set(u, field, value):
+	if field == 'tuple':
+		u.tuple = tuple(value)
+	elif field == 'parse':
+		u.parse(value.encode('utf-8'))
+	elif field == 'parsestr':
+		u.parse(value)
+	elif field == 'set':
+		u.set(value)
+	elif field == 'setbytes':
+		u.set(value.encode('utf-8'))
+	elif field == 'query':
+		u.query = [tuple(p) for p in value] if isinstance(value, list) else value
+	else:
+		setattr(u, field, value)
+
+
+def _obs_refuse(c):
+	"""(12) refused operations between joins; `twin` is an object of the same construction on which no refused operation is ever made"""
+	C = U.classes()
+	base = _mk(c['base'])
+	twin = _mk(c['base'])
+	steps = []
+	for op in c['ops']:
+		w = op[0]
+		before = U.state(base)
+		if w == 'badjoin':
+			arg = _bad_arg(C, op[1])
+			if op[2] == 'bytes':
+				arg = arg.encode('utf-8')
+			st = {'op': op, 'b': before}
+			try:
+				jj = base.join(arg)
+				st['returned'] = U.public(jj)
+			except Exception as exc:
+				st['raised'] = type(exc).__name__
+			st['after'] = U.state(base)
+			steps.append(st)
+		elif w == 'badset':
+			st = {'op': op, 'b': before}
+			try:
+				_apply_set(base, op[1], op[2])
+				st['returned'] = None
+			except Exception as exc:
+				st['raised'] = type(exc).__name__
+			st['after'] = U.state(base)
+			steps.append(st)
+		elif w == 'set':
+			_apply_set(base, op[1][0], op[1][1])
+			_apply_set(twin, op[1][0], op[1][1])
+		elif w == 'join':
+			ref = op[1].encode('utf-8')
+			rel = C['URI'](ref)
+			j = base.join(ref)
+			jt = twin.join(ref)
+			steps.append({'op': op, 'b': before, 'bpub': U.public(base), 'rel': U.state(rel), 'out': U.state(j), 'pub': U.public(j), 'tout': U.state(jt), 'twin': U.state(twin), 'after': U.state(base), 'ident': j is base})
+		else:
+			raise ValueError(w)
+	return {'steps': steps}
+
+
+def _unq_octets(text):
+	"""percent-decoded octets of an ASCII URI text (RFC 3986 2.1)"""
+	raw = text if isinstance(text, bytes) else text.encode('ascii')
+	out = bytearray()
+	i = 0
+	hexd = b'0123456789abcdefABCDEF'
+	while i < len(raw):
+		if raw[i] == 0x25 and len(raw) - i >= 3 and raw[i + 1] in hexd and raw[i + 2] in hexd:
+			out.append(int(raw[i + 1:i + 3], 16))
+			i += 3
+		else:
+			out.append(raw[i])
+			i += 1
+	return bytes(out)
+
+
+def _form_respell(q):
+	"""a query of '&'-separated name[=value] tokens of unreserved characters and percent-encoded octets, spelled canonically: unreserved
+	characters literally, a space as '+', every other octet as upper-case %XX (written from the form-urlencoded rules; the order of the pairs stays)"""
+	def tok(t):
+		out = ''
+		for o in _unq_octets(t.replace('+', ' ')):
+			ch = chr(o)
+			if ch.isalnum() and o < 128 or ch in '-._~':
+				out += ch
+			elif ch == ' ':
+				out += '+'
+			else:
+				out += '%%%02X' % o
+		return out
+	return '&'.join('='.join(tok(t) for t in pair.split('=', 1)) for pair in q.split('&'))
+
+
+def _obs_knob(c):
+	"""(13) URI.encoding assigned on the class / given by a registered subclass, restored afterwards"""
+	C = U.classes()
+	URI = C['URI']
+	enc = c['enc']
+	ref = c['ref'].encode('ascii')
+	o = {}
+	if c['mode'] == 'class':
+		had = 'encoding' in URI.__dict__
+		old = URI.__dict__.get('encoding')
+		URI.encoding = enc
+		try:
+			base = URI(c['base'].encode('ascii'))
+			o['base'] = U.state(base)
+			rel = URI(ref)
+			o['rel'] = U.state(rel)
+			j = base.join(ref)
+			o['out'] = U.state(j)
+			o['pub'] = U.public(j)
+			o['wire'] = bytes(j).decode('ascii')
+			o['after'] = U.state(base)
+			alt = {}
+			for way in ('str', 'obj', 'tuple', 'dict'):
+				args, kw, _robj = _refarg(way, c['ref'])
+				jj = base.join(*args, **kw)
+				alt[way] = {'out': U.state(jj), 'wire': bytes(jj).decode('ascii')}
+			o['alt'] = alt
+		finally:
+			if had:
+				URI.encoding = old
+			else:
+				del URI.encoding
+		o['restored'] = URI.encoding
+		return o
+	sub = type('L1', (URI,), {'__slots__': (), 'SCHEME': b'x-l1', 'PORT': None, 'encoding': enc})
+	try:
+		base = URI(c['base'].encode('ascii'))
+		o['cls'] = type(base) is sub
+		o['base'] = U.state(base)
+		o['rel'] = U.state(URI(ref))
+		j = base.join(ref)
+		o['out'] = U.state(j)
+		o['pub'] = U.public(j)
+		o['wire'] = bytes(j).decode('ascii')
+		o['after'] = U.state(base)
+		o['rcls'] = type(j).__name__
+	finally:
+		URI.SCHEMES.pop(b'x-l1', None)
+	return o
+
+
+def _oracle_w5(c, o, want):
+	"""(10) (11) on a join case of the fifth wave"""
+	ty = o.get('types')
+	if ty:
+		for kind in TYPE_KINDS[c['w5'] % 6::6]:
+			a = ty[kind]
+			if 'skip' in a:
+				continue
+			if 'err' in a:
+				return 'join(%r, reference %r given as %s) raised: %s' % (c['base'], c['ref'], kind, a)
+			if 'refused' in a:
+				if a['must']:
+					return 'join(%r, reference %r given as %s) is refused: %s' % (c['base'], c['ref'], kind, a)
+			else:
+				for name, g, w in zip(NAMES, a['pub'], want):
+					if g != w:
+						return 'join(%r, reference %r given as %s) %s: got %r, RFC 3986 5.2.2 + normalisation gives %r (result %r, expected %r)' % (c['base'], c['ref'], kind, name, g, w, a['pub'], want)
+				if a['out'] != o['out']:
+					return 'join(%r, reference %r given as %s) differs from the result for the reference given as bytes: %r vs %r' % (c['base'], c['ref'], kind, a['out'], o['out'])
+				if a['ident']:
+					return 'join(%r, reference %r given as %s) returned one of its arguments' % (c['base'], c['ref'], kind)
+			if not a['argsame']:
+				return 'join(%r, reference %r given as %s) modified its argument' % (c['base'], c['ref'], kind)
+		if ty['after'] != o['base']:
+			return 'join modified the base URI (reference %r given as objects of other types)' % (c['ref'],)
+	al = o.get('alias')
+	if al:
+		for what, d in sorted(al.items()):
+			if 'err' in d:
+				return 'join(%r, %r): building an object from the base (%s) raised: %s' % (c['base'], c['ref'], what, d)
+			for name, ok in sorted(d.items()):
+				if ok is not True:
+					return 'join(%r, %r) shared state (%s): after changing the other object in every public way, %r is no longer what it was' % (c['base'], c['ref'], what, name)
+	return None
+
+
+def _oracle_chain(c, o):
+	if 'err' in o:
+		return 'unexpected exception %s' % (o,)
+	btext = c['base']
+	for n, (r, st) in enumerate(zip(c['refs'], o['steps'])):
+		if not base_in_domain(btext):
+			return None   # the previous result is not a normalised absolute URI without fragment: out of the domain from here on
+		if st['after'] != st['b'] or st['ident']:
+			return 'join modified or returned the base URI (step %d of the chain %r on %r)' % (n, c['refs'], c['base'])
+		want = expected(U.rfc_resolve(U.parse5(btext), U.parse5(r)))
+		for name, g, w in zip(NAMES, st['pub'], want):
+			if g != w:
+				return 'join(%r, %r) (step %d of the chain %r on %r) %s: got %r, RFC 3986 5.2.2 + normalisation gives %r (result %r, expected %r)' % (btext, r, n, c['refs'], c['base'], name, g, w, st['pub'], want)
+		if want[7]:
+			return None
+		btext = _text_of(want)
+	return None
+
+
+def _oracle_refuse(c, o):
+	if 'err' in o:
+		return 'unexpected exception %s' % (o,)
+	for n, st in enumerate(o['steps']):
+		op = st['op']
+		if st['after'] != st['b']:
+			return '%s changed the base URI (step %d of %r on %r): %r became %r' % ('the refused operation %r' % (op,) if 'raised' in st else 'the operation %r' % (op,), n, c['ops'], c['base'], st['b'], st['after'])
+		if op[0] != 'join':
+			continue
+		if st['ident']:
+			return 'join returned the base URI (step %d of %r on %r)' % (n, c['ops'], c['base'])
+		if st['out'] != st['tout']:
+			return 'join after refused operations (step %d of %r on %r) gives %r, an object of the same construction that never saw a refused operation gives %r' % (n, c['ops'], c['base'], st['out'], st['tout'])
+		bp = st['bpub']
+		if bp[7] or '%' in ''.join(x for x in bp if isinstance(x, str)):
+			continue
+		btext = _text_of(bp)
+		if not base_in_domain(btext):
+			continue
+		want = expected(U.rfc_resolve(U.parse5(btext), U.parse5(op[1])))
+		for name, g, w in zip(NAMES, st['pub'], want):
+			if g != w:
+				return 'join(%r, %r) after refused operations (step %d of %r on %r) %s: got %r, RFC 3986 5.2.2 + normalisation gives %r' % (btext, op[1], n, c['ops'], c['base'], name, g, w)
+	return None
+
+
+def _oracle_knob(c, o):
+	if 'err' in o:
+		return 'join raised with URI.encoding = %r (%s): %s' % (c['enc'], c['mode'], o)
+	if c['mode'] == 'class' and o['restored'] != 'UTF-8':
+		return 'harness: URI.encoding not restored (%r)' % (o['restored'],)
+	if c['mode'] == 'subclass' and not o['cls']:
+		return 'harness: the registered subclass was not picked for %r' % (c['base'],)
+	if o['after'] != o['base']:
+		return 'join modified the base URI'
+	enc = c['enc']
+	t = U.rfc_resolve(U.parse5(c['base']), U.parse5(c['ref']))
+	qc = dict((q, _form_respell(q)) for q in (U.parse5(c['base'])[3], U.parse5(c['ref'])[3]) if q)
+	want = expected(t, qc, enc)
+	for name, g, w in zip(NAMES, o['pub'], want):
+		if g != w:
+			return 'join(%r, %r) with URI.encoding = %r (%s) %s: got %r, RFC 3986 5.2.2 + normalisation, octets read as %s, gives %r (result %r, expected %r)' % (c['base'], c['ref'], enc, c['mode'], name, g, enc, w, o['pub'], want)
+	# the octets on the wire: those of the RFC result (percent-decoded on both sides; case, default port and slash runs normalised)
+	s, a, p, q, f = t
+	user, pw, host, port = _split_authority(a)
+	auth = (a.rpartition('@')[0] + '@' if '@' in a else '') + host.lower() + (':%d' % port if port and port != U.DEFAULT_PORTS.get(s.lower()) else '')
+	path = U.rfc_rds(U.collapse(p)) if p.startswith('/') else U.collapse(p)
+	wire = s.lower() + '://' + auth + path + ('?' + qc.get(q, q) if q else '') + ('#' + f if f else '')
+	if _unq_octets(o['wire']) != _unq_octets(wire):
+		return 'join(%r, %r) with URI.encoding = %r (%s) composes to %r, the RFC result is %r (octets differ after percent-decoding)' % (c['base'], c['ref'], enc, c['mode'], o['wire'], wire)
+	for way, a_ in sorted(o.get('alt', {}).items()):
+		if a_['out'] != o['out'] or a_['wire'] != o['wire']:
+			return 'join(%r, reference %r given as %s) with URI.encoding = %r differs from the result for bytes: %r vs %r' % (c['base'], c['ref'], way, enc, a_, o['out'])
+	return None
+
+
 def coq_case(c, o):
 	k = c['k']
 	if k == 'rfc54':
@@ -694,6 +1433,9 @@ def coq_case(c, o):
 	if k == 'seq' and 'steps' in o:
 		return ['CJoin %s %s %s %s' % (U.ltab([st['b']['t'][0], st['b']['t'][3], st['rel']['t'][0], st['rel']['t'][3]]), U.coq_state(st['b']), U.coq_state(st['rel']), U.coq_state(st['out']))
 			for st in o['steps']]
+	if k in ('chain', 'refuse') and 'steps' in o:
+		return ['CJoin %s %s %s %s' % (U.ltab([st['b']['t'][0], st['b']['t'][3], st['rel']['t'][0], st['rel']['t'][3]]), U.coq_state(st['b']), U.coq_state(st['rel']), U.coq_state(st['out']))
+			for st in o['steps'] if 'rel' in st]
 	if 'harness_exception' in o:
 		return 'CResolve (Ref5 None None [] None None) (Ref5 None None [] None None) (Ref5 None None [x00] None None)'
 	if 'err' in o:
@@ -718,7 +1460,7 @@ def _split_authority(a):
 	return user, pw, host, (int(port) if port else None)
 
 
-def expected(t, qc=None):
+def expected(t, qc=None, charset='utf-8'):
 	"""components of the RFC target after normalisation: case, default port, slash runs, percent-encoded octets decoded
 	(an encoded slash stays data inside its segment) (written from the property text)"""
 	s, a, p, q, f = t
@@ -726,8 +1468,8 @@ def expected(t, qc=None):
 	user, pw, host, port = _split_authority(a) if a is not None else ('', '', '', None)
 	host = host.lower()
 	if '%' in (a or '') + p + (f or ''):
-		user, pw, f, host = unq(user), unq(pw), unq(f or ''), unq(host).lower()
-		p = '/'.join(unq(seg).replace('/', '%2f') for seg in p.split('/'))
+		user, pw, f, host = unq(user, charset), unq(pw, charset), unq(f or '', charset), unq(host, charset).lower()
+		p = '/'.join(unq(seg, charset).replace('/', '%2f') for seg in p.split('/'))
 	if q and qc and q in qc:
 		q = qc[q]
 	if port is None:
@@ -779,6 +1521,12 @@ def oracle(c, o):
 			if st['ident'] or not st['refsame']:
 				return 'join returned or modified one of its arguments (join %d of %r on %r)' % (n, c['ops'], c['base'])
 		return None
+	if k == 'chain':
+		return _oracle_chain(c, o)
+	if k == 'refuse':
+		return _oracle_refuse(c, o)
+	if k == 'knob':
+		return _oracle_knob(c, o)
 	if not base_in_domain(c['base']):
 		if str(o.get('err', '')).startswith('escape'):
 			return 'unexpected exception %s' % (o,)
@@ -820,6 +1568,8 @@ def oracle(c, o):
 		for name, what in (('want', 'a URI built from the expected components %r' % (want,)), ('own', 'a URI built from its own components')):
 			if isinstance(cmpr[name], list) and cmpr[name] != [True, False, True, False]:
 				return 'join(%r, %r) compared with %s: [result == it, result != it, it == result, it != result] = %r' % (c['base'], c['ref'], what, cmpr[name])
+	if 'w5' in c:
+		return _oracle_w5(c, o, want)
 	return None
 
 
@@ -850,6 +1600,8 @@ def classify(c, o, fail):
 def nontrivial(c, o):
 	if c['k'] == 'seq':
 		return ('seq', repr(c['base']), repr(c['ops']))
+	if c['k'] in ('chain', 'refuse', 'knob'):
+		return (c['k'], c['base'], repr(c.get('refs') or c.get('ops') or (c.get('enc'), c.get('mode'), c.get('ref'))))
 	if c['k'] != 'join' or 'err' in o or 'harness_exception' in o:
 		return ('r', c.get('base'), c['ref']) if c['k'] != 'join' else None
 	if o['out']['t'] == o['base']['t']:
